@@ -109,7 +109,8 @@ func (encryptor *HashQuery) OnQuery(ctx context.Context, query postgresql.OnQuer
 		}
 
 		err := postgresql.UpdateExpressionValue(ctx, aConst, encryptor.coder, item.Setting, encryptor.calculateHmac)
-		if err != nil {
+		// an empty search value stays as it is (see calculateHmac)
+		if err != nil && err != postgresql.ErrUpdateLeaveDataUnchanged {
 			logrus.WithError(err).Debugln("Failed to update expression")
 			return query, false, err
 		}
@@ -256,6 +257,10 @@ func (encryptor *HashQuery) replaceValuesWithHMACs(ctx context.Context, values [
 }
 
 func (encryptor *HashQuery) calculateHmac(ctx context.Context, data []byte) ([]byte, error) {
+	// empty values are stored as they are, without a hash: they are found by comparing with the empty value itself
+	if len(data) == 0 {
+		return data, nil
+	}
 	accessContext := base.AccessContextFromContext(ctx)
 	if !encryptor.decryptor.MatchDataSignature(data) {
 		key, err := encryptor.keystore.GetHMACSecretKey(accessContext.GetClientID())
